@@ -784,6 +784,9 @@ func (e *Exec) binop(op token.Token, a, b Value, ta, tb types.Type) Value {
 		case token.SUB:
 			return FBin(OFSub, x, y)
 		case token.MUL:
+			if p := e.unitMul(x, y); p != nil {
+				return p
+			}
 			return FBin(OFMul, x, y)
 		case token.QUO:
 			return FBin(OFDiv, x, y)
